@@ -2168,10 +2168,12 @@ class Node(_protocols.NodeProtocol, _display.PrettyPrintable):
         self.device_configurations: tuple[NodeDeviceConfiguration, ...] = device_configurations
         # _graph is set by graph.append
         self._graph: Graph | None = None
+        # Set before adding to the graph so that the node is fully initialized (e.g. has a repr)
+        # when it is passed to graph.append
+        self.doc_string = doc_string
         # Add the node to the graph if graph is specified
         if graph is not None:
             graph.append(self)
-        self.doc_string = doc_string
 
         # Add the node as a use of the inputs
         for i, input_value in enumerate(self._inputs):
